@@ -13,6 +13,7 @@ PLAN = {
                 slices=["comp"], ref="§7 C10"),
     "C09": dict(families=[("comp", 30, 300)], oracle=lambda h: [f for f in T.oracle_components(h) if f[0] == "C09"],
                 slices=["comp"], ref="§7 C09"),
+    "C04": dict(families=[("filter", 30, 300)], oracle=lambda h: T.filter_checks(h)[1], slices=["filter"], ref="§7 C04"),
     "C17": dict(families=[("fix", 30, 300)],
                 oracle=lambda h: T.fix_cases(h, False)[1] + [("C17",) + f[1:] for f in T.oracle_components(h) if f[0] == "C02"],
                 slices=["fixrun", "comp"], ref="§7 C17"),
@@ -106,11 +107,15 @@ def check(prop_id, tier, seed, replay=None):
             for l in T.skin_cases(h)[0]:
                 inst_of[l.split(" ")[1]] = (h, {})
                 lines.append(l)
+        if "filter" in plan["slices"]:
+            for l in T.filter_checks(h)[0]:
+                inst_of[l.split(" ")[1]] = (h, {})
+                lines.append(l)
         if "fixrun" in plan["slices"]:
             for l in T.fix_cases(h, flags.get("fixReinsertsValue", False))[0]:
                 inst_of[l.split(" ")[1]] = (h, {})
                 lines.append(l)
-        for kind in [k for k in plan["slices"] if k not in ("fault", "skin", "fixrun")]:
+        for kind in [k for k in plan["slices"] if k not in ("fault", "skin", "fixrun", "filter")]:
             for inst, ls, meta in slice_lines(h, kind, flags):
                 if ls is None:
                     skipped += 1
